@@ -17,6 +17,7 @@ struct Prog {
     std::vector<uint8_t> styles;   // style per consumer access (cycled)
     uint8_t destroy_after;         // 255 = never; else destroy after that many received values (if parked at a yield)
     bool plain_consumer;           // consumer is ordinary blocking code on the main thread (synchronous styles only)
+    bool move_between = false;     // the generator object is moved away and back between some accesses
 };
 
 inline Prog decode(hz::Reader &r) {
@@ -40,6 +41,7 @@ inline Prog decode(hz::Reader &r) {
         for (auto &s : p.script) if (s.kind == ST_GATE_CONSUMER) s.kind = ST_GATE_THREAD;
         for (auto &st : p.styles) if (st == S_CO_NEXT || st == S_CO_FUTURE || st == S_FUTURE_SELF_RESOLVE) st = (uint8_t)(st % 4);
     }
+    p.move_between = r.mod(2) == 1;
     return p;
 }
 
@@ -51,6 +53,7 @@ inline std::string describe(const Prog &p) {
     for (auto &s : p.script) d << " " << sk[s.kind];
     d << " (return); access styles:";
     for (auto s : p.styles) d << " " << st[s];
+    if (p.move_between) d << "; the generator object is moved away and back between accesses";
     if (p.destroy_after != 255) d << "; destroyed after " << (unsigned)p.destroy_after << " values";
     return d.s;
 }
@@ -147,6 +150,7 @@ cocls::async<void> consumer(const Prog *p, Gates *gates, Result *res) {
         if (seg.thread_gate || seg.consumer_gate) res->async_body = true;
         res->styles_used |= 1u << style;
         int &arg = argslot[call & 1]; arg = 7 + (int)call;   // the argument object changes from call to call
+        if (p->move_between && !it && call % 3 == 1) { G tmp(std::move(g)); g = std::move(tmp); }       // a generator is movable between accesses
         call++;
         int code = -100;          // >=0 value, -1 end, 1000+ exception
         try {
